@@ -1,4 +1,5 @@
 import MitmVerif.Model.C22
+import MitmVerif.Lemmas.C22Render
 import Driver.Proto
 open MitmVerif Driver
 
@@ -33,6 +34,15 @@ def c22Step (line : String) : String :=
         let f := fun (c : Gen.C22.Cls) => s!"{c.loop},{c.priv},{c.glob}"
         f (C22.classify a) ++ " " ++ f (C22.memberCls a)
       | none => "bad-op"
+    | none => "bad-op"
+  | ["render4", n] =>
+    -- the text forms the read-back theorems are about (tied to the OS' inet_ntop by the harness)
+    match n.toNat? with
+    | some n =>
+      if n < 4294967296 then
+        let (a, b, c, d) := (n / 16777216, n / 65536 % 256, n / 256 % 256, n % 256)
+        showBytes (Lemmas.C22.dotted a b c d) ++ " " ++ showBytes (Lemmas.C22.mappedText a b c d)
+      else "bad-op"
     | none => "bad-op"
   | ["parse", h] =>
     match hexOr h with
